@@ -398,6 +398,17 @@ class QAdaptiveActivation(Layer, PrunableLayer):
         tf.math.logical_and(self.is_estimating_step_count, training),
         tf.constant(1, tf.int64), tf.constant(0, tf.int64)))
 
+    # Make sure the integer bits match the moving averages before quantizing:
+    # they are refreshed at the end of every call, but the averages may have
+    # been restored (set_weights, load_weights, clone) since then.
+    self.quantizer.integer.assign(_get_integer_bits(
+        min_value=self.ema_min,
+        max_value=self.ema_max,
+        bits=self.total_bits,
+        symmetric=self.symmetric,
+        keep_negative=self.keep_negative,
+        is_clipping=self.po2_rounding))
+
     # Perform the quantization
     if training:
       # Calculate the qnoise, a scalar from 0 to 1 that represents the level of
